@@ -38,8 +38,14 @@ def exposedPorts (fc : FC) (enc : Decl) (cfg : PortsCfg) : Option (List XPort) :
           | none => none
         some { port := p, itf, sem, mc }
 
-def paramsOf (ev : Event) (refs : Bool) : List LParam :=
-  ev.formals.map fun f => { ctype := [], byRef := refs && f.dir != .in_, name := f.name }
+def paramsOf (fc : FC) (itf : InterfaceD) (ev : Event) (refs : Bool) : List LParam :=
+  ev.formals.map fun f =>
+    -- a parameter reads back as by-reference when the text before its name ends in `&`: that is the mark the
+    -- shell adds for out/inout formals, or the extern's own C++ spelling (`const T&`) whatever the direction
+    let tyRef := match formalType fc itf f with
+      | some t => (L "&").isSuffixOf t
+      | none => false
+    { ctype := [], byRef := (refs && f.dir != .in_) || tyRef, name := f.name }
 
 /-- the object through which the environment reaches an MTS port: read from the text -/
 def objOf (as : List Assign) (p : Str) : Option PortObj :=
@@ -63,7 +69,7 @@ def grantText (fc : FC) (x : XPort) (m : MultiClientCfg) : Option Str :=
   | [] => none
 
 /-- constructor assignments the shell owes to one exposed port reached through `o` -/
-def ctorRouting (x : XPort) (o : PortObj) : List Assign :=
+def ctorRouting (fc : FC) (x : XPort) (o : PortObj) : List Assign :=
   let p := x.port.name
   let ins := Shell.inEvents x.itf
   let outs := Shell.outEvents x.itf
@@ -71,17 +77,17 @@ def ctorRouting (x : XPort) (o : PortObj) : List Assign :=
   | .sts, _, _ => []
   | .mts, .provides, none =>
     ins.map (fun ev => { lhs := ⟨o, .in_, ev.name⟩,
-                         rhs := .shell ⟨.enc p, .in_, ev.name⟩ (paramsOf ev true) (formalNames ev) (inFormalNames ev) }) ++
+                         rhs := .shell ⟨.enc p, .in_, ev.name⟩ (paramsOf fc x.itf ev true) (formalNames ev) (inFormalNames ev) }) ++
     outs.map (fun ev => { lhs := ⟨.enc p, .out, ev.name⟩, rhs := .ref ⟨o, .out, ev.name⟩ })
   | .mts, .requires, _ =>
     outs.map (fun ev => { lhs := ⟨o, .out, ev.name⟩,
-                          rhs := .post ⟨.enc p, .out, ev.name⟩ (paramsOf ev false) (formalNames ev) (inFormalNames ev) }) ++
+                          rhs := .post ⟨.enc p, .out, ev.name⟩ (paramsOf fc x.itf ev false) (formalNames ev) (inFormalNames ev) }) ++
     ins.map (fun ev => { lhs := ⟨.enc p, .in_, ev.name⟩, rhs := .ref ⟨o, .in_, ev.name⟩ })
   | .mts, .provides, some _ =>
     ins.map (fun ev => { lhs := ⟨o, .in_, ev.name⟩,
-                         rhs := .shell ⟨.enc p, .in_, ev.name⟩ (paramsOf ev true) (formalNames ev) (inFormalNames ev) }) ++
+                         rhs := .shell ⟨.enc p, .in_, ev.name⟩ (paramsOf fc x.itf ev true) (formalNames ev) (inFormalNames ev) }) ++
     outs.map (fun ev => { lhs := ⟨o, .out, ev.name⟩,
-                          rhs := .mcDeliver (objName o) ev.name (paramsOf ev false) (formalNames ev) }) ++
+                          rhs := .mcDeliver (objName o) ev.name (paramsOf fc x.itf ev false) (formalNames ev) }) ++
     outs.map (fun ev => { lhs := ⟨.enc p, .out, ev.name⟩, rhs := .ref ⟨o, .out, ev.name⟩ })
 
 /-- per-client port assignments of a multi-client port reached through `o` -/
@@ -89,10 +95,10 @@ def clientRouting (fc : FC) (x : XPort) (m : MultiClientCfg) (o : PortObj) : Lis
   (Shell.inEvents x.itf).map fun ev =>
     if ev.name = m.claimEvent then
       { lhs := ⟨.local_, .in_, ev.name⟩,
-        rhs := .mcClaim (objName o) ev.name (paramsOf ev true) (formalNames ev) ((grantText fc x m).getD []) }
+        rhs := .mcClaim (objName o) ev.name (paramsOf fc x.itf ev true) (formalNames ev) ((grantText fc x m).getD []) }
     else if ev.name = m.releaseEvent then
       { lhs := ⟨.local_, .in_, ev.name⟩,
-        rhs := .mcRelease (objName o) ev.name ev.name (paramsOf ev true) (formalNames ev) }
+        rhs := .mcRelease (objName o) ev.name ev.name (paramsOf fc x.itf ev true) (formalNames ev) }
     else { lhs := ⟨.local_, .in_, ev.name⟩, rhs := .ref ⟨o, .in_, ev.name⟩ }
 
 def eraseA (a : Assign) : Assign := { a with rhs := IrParse.eraseH a.rhs }
@@ -110,8 +116,8 @@ def routingClauses (fc : FC) (xs : List XPort) (pr : Parsed) : List String :=
   -- the expected constructor assignments; a port without events needs no object
   let want := objs.flatMap fun (x, o?) =>
     match o? with
-    | some o => ctorRouting x o
-    | none => if x.sem = .mts then ctorRouting x (.bnd (L "?" ++ x.port.name)) else []
+    | some o => ctorRouting fc x o
+    | none => if x.sem = .mts then ctorRouting fc x (.bnd (L "?" ++ x.port.name)) else []
   let shapeOk := objs.all fun (x, o?) =>
     match o?, x.sem, x.mc with
     | none, _, _ => true
